@@ -5,6 +5,7 @@ import (
 	"go/constant"
 	"go/token"
 	"go/types"
+	"math"
 	"strings"
 
 	"golang.org/x/tools/go/ssa"
@@ -158,7 +159,63 @@ func checkC10(p *Prog, res *Result, tier string) {
 	res.rule("C10-R2", "all revision encodings use binary.BigEndian", 8)
 	res.rule("C10-R3", "separator <= '$'; index key = version key at revision 0", 2)
 	res.rule("C10-R4", "index values are 8 or 8+1 bytes; parser and scanner agree on the constants", 6)
+	res.rule("C10-R6", "constant revisions used to build internal keys (bounds of a key's versions) are 0 or the maximal uint64", 12)
 	res.rule("C10-R5", "partition bounds derived from internal keys stay contiguous and are realigned to index keys, so all records of one key stay in one scanned interval (C13-R5)", 2)
+
+	// ---- R6: constant revisions in key bounds ----
+	{
+		n := 0
+		for _, f := range p.AllFuncs {
+			if f.Synthetic != "" || f.Pkg == nil || !strings.HasPrefix(f.Pkg.Pkg.Path(), modPath) {
+				continue
+			}
+			k := 0
+			for _, c := range callsIn(f) {
+				if !r.is(c, r.EncObj) {
+					continue
+				}
+				rev := argForSigParam(c, 1)
+				var consts []*ssa.Const
+				seenV, seenK := map[ssa.Value]bool{}, map[string]bool{}
+				var collect func(v ssa.Value, d int)
+				collect = func(v ssa.Value, d int) {
+					v = resolve(v)
+					if v == nil || seenV[v] {
+						return
+					}
+					seenV[v] = true
+					switch x := v.(type) {
+					case *ssa.Const:
+						if x.Value != nil && !seenK[x.Value.ExactString()] {
+							seenK[x.Value.ExactString()] = true
+							consts = append(consts, x)
+						}
+					case *ssa.Phi:
+						if d < 4 {
+							for _, e := range x.Edges {
+								collect(e, d+1)
+							}
+						}
+					}
+				}
+				collect(rev, 0)
+				for _, kc := range consts {
+					k++
+					n++
+					construct := fmt.Sprintf("%s: constant revision #%d in an internal key", funcName(f), k)
+					u, exact := constant.Uint64Val(constant.ToInt(kc.Value))
+					if kc.Value != nil && exact && (u == 0 || u == math.MaxUint64) {
+						res.ok("C10-R6", construct, p.pos(c.Pos()), fmt.Sprintf("%d", u))
+					} else {
+						res.bad("C10-R6", construct, p.pos(c.Pos()), "an internal key is built with a constant revision that is neither 0 (the index record, the lower end of a key's versions) nor the maximal revision (their upper end): a bound built from it does not enclose all versions of the key, and versions beyond it are invisible to the read that uses it")
+					}
+				}
+			}
+		}
+		if n == 0 {
+			res.und("C10-R6", "constant revisions", "-", "no internal key with a constant revision found")
+		}
+	}
 
 	cp := p.ssaPkg("pkg/backend/coder")
 	enc := p.implIn(r.EncObj, "pkg/backend/coder")
@@ -561,6 +618,17 @@ func checkC10(p *Prog, res *Result, tier string) {
 	checkBorderContiguity(p, r, sub13, p.ssaPkg("pkg/backend/scanner"))
 	for _, o := range sub13.Obls {
 		res.add("C10-R5", o.Rule+" "+o.Construct, o.Status, o.Pos, o.Detail)
+	}
+	// ... and the scan attributes a record to the key it decodes to: it treats the previous record as superseded only
+	// when the decoded user keys are equal (C07-R3) - the order of the encoding puts a key's records side by side,
+	// but an index record may be missing
+	{
+		sub7 := p.subResult("C07", tier)
+		for _, o := range sub7.Obls {
+			if o.Rule == "C07-R3" {
+				res.add("C10-R5", o.Rule+" "+o.Construct, o.Status, o.Pos, o.Detail)
+			}
+		}
 	}
 	// ... and the engine's partitions are clipped to the requested interval (C11-R7)
 	sub11 := newResult("C11")
